@@ -210,3 +210,72 @@ c26_probe(J, Vs, Ts) :-
        bb_get(c26_tmp, L1), bb_b_put(c26_log, [y(J)|L1])
     ;  c26_mark(n(J))
     ).
+
+% ---------------------------------------------------------------------------
+% C19 helpers: interpreters of write and read operation lists over one stream
+% (characters travel as codes so that results print unambiguously)
+% ---------------------------------------------------------------------------
+c19_write(File, Type, WOps) :- open(File, write, S, [type(Type)]), c19_wops(WOps, S), close(S).
+c19_wops([], _).
+c19_wops([Op|Ops], S) :- c19_wop(Op, S), c19_wops(Ops, S).
+c19_wop(pc(K), S) :- char_code(C, K), put_char(S, C).
+c19_wop(pcode(K), S) :- put_code(S, K).
+c19_wop(pb(B), S) :- put_byte(S, B).
+c19_wop(wa(Ks), S) :- atom_codes(A, Ks), write(S, A).
+c19_wop(fs(Ks), S) :- maplist(c19_code_char, Ks, Cs), format(S, "~s", [Cs]).
+c19_wop(fa(Ks), S) :- atom_codes(A, Ks), format(S, "~a", [A]).
+c19_wop(nl, S) :- nl(S).
+c19_wop(flush, S) :- flush_output(S).
+c19_code_char(K, C) :- char_code(C, K).
+c19_char_code(C, K) :- ( C == end_of_file -> K = -1 ; char_code(C, K) ).
+
+c19_read(File, Opts, ROps, Rs) :- open(File, read, S, Opts), c19_rops(ROps, S, [], Rs), close(S).
+c19_rops([], _, _, []).
+c19_rops([Op|Ops], S, Sv0, [R|Rs]) :-
+    catch(c19_rop(Op, S, Sv0, Sv, R), error(E, _), (R = err(E), Sv = Sv0)),
+    c19_rops(Ops, S, Sv, Rs).
+c19_rop(gc, S, Sv, Sv, k(K)) :- get_char(S, C), c19_char_code(C, K).
+c19_rop(pk, S, Sv, Sv, k(K)) :- peek_char(S, C), c19_char_code(C, K).
+c19_rop(gcode, S, Sv, Sv, k(K)) :- get_code(S, K).
+c19_rop(pcode, S, Sv, Sv, k(K)) :- peek_code(S, K).
+c19_rop(gb, S, Sv, Sv, k(B)) :- get_byte(S, B).
+c19_rop(pb, S, Sv, Sv, k(B)) :- peek_byte(S, B).
+c19_rop(gn(N), S, Sv, Sv, cs(Ks)) :- get_n_chars(S, N, Cs), maplist(c19_char_code, Cs, Ks).
+c19_rop(gl, S, Sv, Sv, cs(Ks)) :- get_line_to_chars(S, Cs, []), maplist(c19_char_code, Cs, Ks).
+c19_rop(eos, S, Sv, Sv, b(B)) :- ( at_end_of_stream(S) -> B = 1 ; B = 0 ).
+c19_rop(pos, S, Sv, Sv, p(P, L)) :- stream_property(S, position(position_and_lines_read(P, L))).
+c19_rop(save, S, Sv, Sv1, saved) :- stream_property(S, position(Pos)), append(Sv, [Pos], Sv1).
+c19_rop(restore(K), S, Sv, Sv, restored) :- nth0(K, Sv, Pos), set_stream_position(S, Pos).
+c19_rop(eosp, S, Sv, Sv, e(E)) :- stream_property(S, end_of_stream(E)).
+
+% ---------------------------------------------------------------------------
+% C47 helpers: grammars run lazily over a file and over the full character list
+% ---------------------------------------------------------------------------
+:- use_module(library(pio)).
+c47_expand([], []).
+c47_expand([K-N|Ps], Cs) :- char_code(C, K), length(Run, N), maplist(=(C), Run), append(Run, Cs0, Cs), c47_expand(Ps, Cs0).
+
+c47_g(all(L, Tail)) --> seq(Cs), c47_eos, { length(Cs, L), c47_tail(Cs, Tail) }.
+c47_g(prefix(N, Ks)) --> { length(P, N) }, seq(P), { c47_tail(P, Ks) }, ... .
+c47_g(count(K, N)) --> { char_code(C, K) }, c47_count(C, 0, N).
+c47_g(suffix(Ks)) --> { maplist(c19_code_char, Ks, S) }, ..., seq(S).
+c47_g(pos(K, L)) --> seq(A), [C], { char_code(C, K), length(A, L) }, ... .
+c47_g(has(K)) --> ..., [C], { char_code(C, K) }, ... .
+c47_g(throw_after(N)) --> { length(P, N) }, seq(P), { throw(c47_ball) }.
+c47_g(twice(L)) --> seq(A), seq(A), c47_eos, { length(A, L) }.
+
+c47_eos([], []).
+
+c47_count(C, N0, N) --> [X], !, { X == C -> N1 is N0 + 1 ; N1 = N0 }, c47_count(C, N1, N).
+c47_count(_, N, N) --> [].
+
+c47_tail(Cs, Tail) :- length(Cs, L), ( L =< 6 -> Tail0 = Cs ; K is L - 6, length(Pre, K), append(Pre, Tail0, Cs) ), c47_codes(Tail0, Tail).
+c47_codes([], []).
+c47_codes([X|Xs], [K|Ks]) :- ( integer(X) -> K = X ; char_code(X, K) ), c47_codes(Xs, Ks).
+
+c47_file(G, File, Opts, R) :-
+    catch(( findall(G, phrase_from_file(c47_g(G), File, Opts), Gs) -> R = sols(Gs) ; R = no ), E, R = ex(E)).
+c47_mem(G, Spec, R) :-
+    c47_expand(Spec, Cs),
+    catch(( findall(G, phrase(c47_g(G), Cs), Gs) -> R = sols(Gs) ; R = no ), E, R = ex(E)).
+c47_open_streams(File, N) :- findall(S, stream_property(S, file_name(File)), Ss), length(Ss, N).
